@@ -917,6 +917,15 @@ def directed_faultfree():
         c["settings"] = [setting]
         for ln in lines:
             out.append(annotate(case_of(c, [b"prog"] + list(ln)), ["ok"], "none"))
+    # a token that looks like a short cluster is a VALUE of a hyphen-accepting positional as soon as ANY of its characters is
+    # no defined short -- not only the first one (`grep -vx`, `-hello` with the generated -h; seeded change seed4/C10-1)
+    c = {"name": b"p", "about": b"A:p", "groups": [], "aliases": [], "settings": [], "subs": [],
+         "args": [{"id": b"v", "short": "v", "action": "settrue", "flags": set()},
+                  {"id": b"n", "short": "n", "action": "count", "flags": set()},
+                  pos(b"pattern", flags={"hyphen"}), pos(b"file")]}
+    for ln in ([b"-vx"], [b"-hello"], [b"-xv"], [b"-x"], [b"-v"], [b"-vn", b"pat"], [b"-v", b"-nx", b"f"], [b"-nnq"], [b"-vnx", b"f"],
+               [b"--weird"], [b"-n", b"-vx", b"file"]):
+        out.append(annotate(case_of(c, [b"prog"] + ln), ["ok"], "none"))
     c = {"name": b"p", "about": b"A:p", "groups": [], "aliases": [], "settings": ["allow_missing_positional"],
          "args": [pos(b"profile"), pos(b"target", flags={"required"})], "subs": [sub(b"run")]}
     for ln in ([b"web", b"run"], [b"web"], [b"prod", b"web", b"run"], [b"prod", b"web"], [b"web", b"run", b"--force"]):
